@@ -475,6 +475,38 @@ def run(ctx):
         elif mo != im["fields"]:
             ctx.violation("E2", "model diff != implementation diff", canon, found_input=False)
         ctx.traces_validated += 1
+    # fields present on one side only keep their layout: a vector / tensor field comes back as NaN in every component, with the
+    # shape it has on the side that carries it (point and cell fields, either side, through diff_to and through the written file)
+    for it in range(20 if q else 400):
+        M = G.gen_mesh(rng, max_cells=4)
+        npts = len(M["pts"])
+        side = rng.choice(["src", "ref"])
+        comp = rng.choice([(3,), (2,), (3, 3), (2, 2)])
+        where = rng.choice(["point", "cell"])
+        canon = {"one_sided_field_layout": {"side": side, "components": list(comp), "on": where, "mesh": {"blocks": M["blocks"], "npts": npts}}}
+        try:
+            with warnings.catch_warnings():
+                warnings.simplefilter("ignore")
+                ep = {"w": np.arange(float(npts * int(np.prod(comp)))).reshape((npts,) + comp)} if where == "point" else None
+                ec = {"w": [np.arange(float(len(rows) * int(np.prod(comp)))).reshape((len(rows),) + comp) for _, rows in M["blocks"]]} \
+                    if where == "cell" else None
+                plain = G.to_fieldcompare(M, {"u": np.arange(float(npts))}, None)
+                rich = G.to_fieldcompare(M, dict({"u": np.arange(float(npts))}, **(ep or {})), ec)
+                a, b = (rich, plain) if side == "src" else (plain, rich)
+                dfld = a.diff_to(b)
+                shapes = {f.name: tuple(np.asarray(f.values).shape) for f in dfld if f.name.split(" @ ")[0] == "w"}
+                allnan = all(bool(np.all(np.isnan(np.asarray(f.values, dtype=float)))) for f in dfld if f.name.split(" @ ")[0] == "w")
+                want = {f.name: tuple(np.asarray(f.values).shape) for f in rich if f.name.split(" @ ")[0] == "w"}
+        except Exception as e:  # noqa: BLE001
+            ctx.violation("E4", f"diff_to with a one-sided {where} field of {comp} components raised {type(e).__name__}: {e}", canon)
+            continue
+        ctx.case(canon, True, sample={"case": canon, "shapes": {k: list(v) for k, v in shapes.items()}})
+        ctx.count(f"one-sided field layout:{where}:{len(comp)}-index components")
+        if shapes != want or not allnan:
+            ctx.violation("E4", f"a {where} field with components {comp} present on one side only comes back with shapes "
+                                f"{ {k: list(v) for k, v in shapes.items()} } (all NaN: {allnan}) instead of NaN in the layout "
+                                f"{ {k: list(v) for k, v in want.items()} }", canon)
+        ctx.traces_validated += 1
     # directed probe: integer table columns whose difference is no double (one finding class when it deviates)
     probe = {"kind": "table", "src_rows": 2, "ref_rows": 2, "src": [["a", [17, 2 ** 53 + 1]], ["t", [Fr(1, 2), Fr(3, 2)]]],
              "ref": [["a", [2 ** 62 + 1, -50]], ["t", [Fr(1), Fr(1)]]], "src_idx": None, "ref_idx": None,
